@@ -1100,6 +1100,9 @@ func c17RespOptions(c *h.Ctx) {
 				x = tref.Int32(int32([]int{200, 201, 404, 500, 302}[cs.R.Intn(5)]))
 			default:
 				x = c17Val(cs.R, hf.f.T, "header", false)
+				if hf.f.T.T == tref.STRING && cs.R.Chance(20) {
+					x = tref.Str("") // an empty value is a value
+				}
 			}
 			msg.Fs = append(msg.Fs, tref.Field{ID: hf.f.ID, V: x})
 			e := exp{hf: hf, v: x}
@@ -1250,6 +1253,12 @@ func c17RespOptions(c *h.Ctx) {
 					return
 				}
 				cs.Cover("respopt_" + e.sink.kind + "_delivered")
+				if e.v.T == tref.STRING && len(e.v.S) == 0 {
+					cs.Cover("respopt_empty_value_delivered")
+					if e.sink != &e.hf.srcs[0] {
+						cs.Cover("respopt_empty_value_delivered_by_later_annotation")
+					}
+				}
 				if e.sink != &e.hf.srcs[0] {
 					cs.Cover("respopt_later_annotation_delivered")
 				}
